@@ -104,6 +104,8 @@ KIND_RULES = [
     (r"precondition not met: index in bounds|index out of bounds|possible index", "index-bounds"),
     (r"invariant not satisfied at end of loop body", "invariant-preserved"),
     (r"invariant not satisfied before loop", "invariant-entry"),
+    (r"loop invariant not satisfied", "invariant-preserved"),
+    (r"loop ensures not satisfied|loop ensures", "loop-ensures"),
     (r"decreases not satisfied|could not prove termination", "decreases"),
     (r"possible arithmetic underflow/overflow|possible division by zero|possible bit shift", "overflow"),
     (r"assertion failed", "assert"),
@@ -308,8 +310,12 @@ def run_unit(unit, tier="quick", seeds=None):
                 detail = "of " + (callee["name"] if callee else "helper") + ": " + norm_clause(gen_lines[lab[0]["line_start"] - 1])
             else:
                 detail = "of std/vstd operation"
-        elif kind in ("invariant-preserved", "invariant-entry", "assert"):
-            detail = norm_clause(gen_lines[gl - 1]) if gl else ""
+        elif kind in ("invariant-preserved", "invariant-entry", "assert", "loop-ensures"):
+            lab = [s for s in d["spans"] if (s.get("label") or "").startswith("failed this invariant")]
+            if lab:
+                detail = norm_clause(gen_lines[lab[0]["line_start"] - 1]) + " @continue/break"
+            else:
+                detail = norm_clause(gen_lines[gl - 1]) if gl else ""
         name = f"{unit}::{it['name'] if it else 'template'}::{kind}" + (f"[{detail}]" if detail else "")
         span_sha = it["sha256"][:16] if it else ""
         f_ = {"obligation": name, "kind": kind, "item": it["name"] if it else None,
